@@ -139,6 +139,9 @@ package hpack
 //@ -- value of the continuation groups at the front of q (RFC 7541 5.1): 7 bits per octet, least significant group
 //@ -- first, the octet without the top bit ends the integer
 //@ pure func dvalT(q seq[byte]) int = ite(len(q) == 0, 0, ite(q[0] < 128, q[0], q[0] % 128 + 128 * dvalT(q[1:])))
+//@ -- number of octets of the continuation groups at the front of q / of the whole integer
+//@ pure func glen(q seq[byte]) int = ite(len(q) == 0, 0, ite(q[0] < 128, 1, 1 + glen(q[1:])))
+//@ pure func vlen(n int, p seq[byte]) int = ite(p[0] % pow2(n) < pow2(n) - 1, 1, 1 + glen(p[1:]))
 //@ pure func vint(n int, p seq[byte]) int = ite(p[0] % pow2(n) < pow2(n) - 1, p[0] % pow2(n), pow2(n) - 1 + dvalT(p[1:]))
 //@ func readVarInt :: n, p -> i, remain, err
 //@   props C18,C10
@@ -150,8 +153,10 @@ package hpack
 //@   ensures [C18:need-more-only-when-truncated] err == errNeedMore ==> len(p) <= 9 && (forall j int :: 1 <= j && j < len(p) ==> p[j] >= 128)
 //@   ensures [C18:overlong-integer-rejected] err != nil && err != errNeedMore ==> len(p) >= 10 && (forall j int :: 1 <= j && j < 10 ==> p[j] >= 128)
 //@   ensures [C18:integer-value] err == nil ==> i == vint(n, p)
+//@   ensures [C18:integer-extent] err == nil ==> len(p) - len(remain) == vlen(n, p)
 //@   ensures [C18:integer-value-short-form] err == nil && len(p) - len(remain) == 1 ==> i == p[0] % pow2(n) && i < pow2(n) - 1
 //@   ensures [C18:integer-value-long-form] err == nil && len(p) - len(remain) >= 2 ==> p[0] % pow2(n) == pow2(n) - 1 && i == pow2(n) - 1 + dvalT(p[1:])
+//@   loop 1 invariant (len(origP) - len(p#1) - 1) + glen(p#1) == glen(origP[1:]) || len(p#1) == 0
 //@   loop 1 invariant origP[0] % pow2(n) == pow2(n) - 1 && 0 <= i - (pow2(n) - 1) && i - (pow2(n) - 1) < pow2(m) && (i - (pow2(n) - 1)) + pow2(m) * dvalT(p#1) == dvalT(origP[1:])
 //@   loop 1 invariant origP == old(p) && len(p#1) < len(origP) && p#1 == origP[len(origP) - len(p#1):] && m == 7 * (len(origP) - len(p#1) - 1) && m < 63 && (forall j int :: 1 <= j && j < len(origP) - len(p#1) ==> origP[j] >= 128)
 
@@ -162,9 +167,16 @@ package hpack
 //@   assigns nothing
 //@   ensures [C18:string-error-kinds] err != nil ==> err == errNeedMore || err == ErrStringLength || err.(DecodingError)
 //@   ensures [C18:string-success-consumes-a-prefix] err == nil ==> len(remain) + len(u.b) < len(p) && remain == p[len(p) - len(remain):] && u.b == p[len(p) - len(remain) - len(u.b):len(p) - len(remain)] && (u.isHuff <==> p[0] >= 128)
+//@   ensures [C18:string-octets-are-the-decoded-length-after-the-length-integer] err == nil ==> len(u.b) == vint(7, p) && u.b == p[vlen(7, p):vlen(7, p) + vint(7, p)] && remain == p[vlen(7, p) + vint(7, p):]
 //@   ensures [C18:string-length-limit-enforced-before-buffering] err == nil && d.maxStrLen != 0 ==> len(u.b) <= d.maxStrLen
 
 //@ -- Huffman decoding and the buffer pool are outside the generator's subset (variable shifts, sync.Pool): assumed
+//@ -- Huffman coding (RFC 7541 5.2 / Appendix B) as uninterpreted functions; that decoding inverts encoding is ASSUMED
+//@ -- here (it is what the bounded stand-in checks on the real tables)
+//@ pure func huffEnc(s string) seq[byte]
+//@ pure func huffDec(b seq[byte]) string
+//@ pure func huffLen(s string) int
+//@ axiom [huffman-decode-inverts-encode] forall s string :: huffDec(huffEnc(s)) == s && len(huffEnc(s)) == huffLen(s) && huffLen(s) >= 0
 //@ ghost var lastDecoded string
 //@ func (*Decoder).decodeString :: d, u -> s, err
 //@   props C18
@@ -172,6 +184,7 @@ package hpack
 //@   assigns lastDecoded
 //@   ensures err == nil ==> lastDecoded == s
 //@   ensures err == nil && !u.isHuff ==> s == u.b
+//@   ensures err == nil && u.isHuff ==> s == huffDec(u.b)
 //@   ensures err == nil ==> len(s) <= 2 * len(u.b) && (d.maxStrLen != 0 && u.isHuff ==> len(s) <= d.maxStrLen)
 //@   ensures err != nil ==> u.isHuff && err != errNeedMore
 
@@ -220,6 +233,13 @@ package hpack
 //@   assigns nothing
 //@   ensures r <==> v == 2
 
+//@ -- a literal representation read off the octets b: name index (n-bit prefix), optional name string, value string
+//@ pure func litO2(n int, b seq[byte]) int = ite(vint(n, b) > 0, vlen(n, b), vlen(n, b) + slen(b[vlen(n, b):]))
+//@ pure func tabName(d *Decoder, i int) string = ite(i <= 61, staticTable.ents[i-1].Name, d.dynTab.table.ents[len(d.dynTab.table.ents) - (i - 61)].Name)
+//@ pure func litName(d *Decoder, n int, b seq[byte]) string = ite(vint(n, b) > 0, tabName(d, vint(n, b)), sval(b[vlen(n, b):]))
+//@ -- composition: a literal with a new name, written as type octet ++ N ++ V, is read back as (sval N, sval V) whenever
+//@ -- N and V read back as strings (which the three string lemmas establish for everything senc produces)
+//@ lemma [C18:literal-with-new-name-round-trip] rtLiteralNew(n int, tb int, nm seq[byte], vl seq[byte], rest seq[byte]) = (n == 6 && tb == 64 || n == 4 && (tb == 0 || tb == 16)) && len(nm) > 0 && slen(nm ++ vl ++ rest) == len(nm) ==> vint(n, seq[byte]{tb} ++ nm ++ vl ++ rest) == 0 && litO2(n, seq[byte]{tb} ++ nm ++ vl ++ rest) == 1 + len(nm) && (seq[byte]{tb} ++ nm ++ vl ++ rest)[1:] == nm ++ vl ++ rest && (seq[byte]{tb} ++ nm ++ vl ++ rest)[1 + len(nm):] == vl ++ rest
 //@ func (*Decoder).parseFieldLiteral :: d, n, it -> err
 //@   props C18,C10
 //@   requires d != nil && smallState(d) && emitOK(d) && (n == 4 || n == 6) && 0 <= it && it <= 2
@@ -232,6 +252,7 @@ package hpack
 //@   ensures [C18:success-means-emitted-when-enabled] err == nil && d.emitEnabled ==> len(d.emitted) == len(old(d.emitted)) + 1 && (d.emitted[len(old(d.emitted))].Sensitive <==> it == 2)
 //@   ensures [C18:indexed-literal-becomes-newest-entry] err == nil && it == 0 && d.emitEnabled && len(d.dynTab.table.ents) > 0 && entSize(d.emitted[len(old(d.emitted))]) <= d.dynTab.maxSize ==> d.dynTab.table.ents[len(d.dynTab.table.ents)-1].Name == d.emitted[len(old(d.emitted))].Name && d.dynTab.table.ents[len(d.dynTab.table.ents)-1].Value == d.emitted[len(old(d.emitted))].Value
 //@   ensures [C18:table-stays-consistent] smallState(d) || (err != nil && err != errNeedMore)
+//@   ensures [C18:literal-field-name-and-value-are-what-the-octets-say] err == nil && d.emitEnabled ==> d.emitted[len(old(d.emitted))].Name == old(litName(d, n, d.buf)) && d.emitted[len(old(d.emitted))].Value == old(sval(d.buf[litO2(n, d.buf):]))
 //@   ensures [C18:indexed-literal-stores-the-decoded-value-emitted-or-not] err == nil && it == 0 && len(d.dynTab.table.ents) > 0 ==> d.dynTab.table.ents[len(d.dynTab.table.ents)-1].Value == lastDecoded
 
 //@ func (*Decoder).parseHeaderFieldRepr :: d -> err
@@ -278,10 +299,8 @@ package hpack
 //@ -- a pending minimum is only kept while a size update is still owed to the peer (RFC 7541 4.2)
 //@ pure func encInv(e *Encoder) bool = dtInv(e.dynTab) && e.dynTab.table != staticTable && e.dynTab.size <= e.dynTab.maxSize && e.dynTab.maxSize <= e.maxSizeLimit && (!e.tableSizeUpdate ==> e.minSize == 4294967295) && (e.tableSizeUpdate ==> e.minSize <= e.dynTab.maxSize || e.minSize == 4294967295)
 
-//@ func encodeTypeByte :: indexing, sensitive -> b
-//@   props C18
-//@   assigns nothing
-//@   ensures [C18:representation-type-bits] b == ite(sensitive, 16, ite(indexing, 64, 0))
+//@ func encodeTypeByte
+//@   inline
 
 //@ pure func vgroups(r int) seq[byte] = ite(r < 128, seq[byte]{r}, seq[byte]{128 + r % 128} ++ vgroups(r / 128))
 //@ pure func venc(n int, i int) seq[byte] = ite(i < pow2(n) - 1, seq[byte]{i}, seq[byte]{pow2(n) - 1} ++ vgroups(i - (pow2(n) - 1)))
@@ -341,20 +360,44 @@ package hpack
 //@   ensures [C18:limit-truncates-current-size] e.maxSizeLimit == v && e.dynTab.maxSize == min(old(e.dynTab.maxSize), v) && (old(e.dynTab.maxSize) > v ==> e.tableSizeUpdate)
 //@   ensures encInv(e) || (old(e.dynTab.maxSize) > v && old(e.minSize) != 4294967295 && old(e.minSize) > v)
 
+//@ func HuffmanEncodeLength :: s -> n
+//@   trusted
+//@   pure
+//@   ensures n == huffLen(s)
+//@ func AppendHuffmanString :: dst, s -> out
+//@   trusted
+//@   pure
+//@   ensures out == dst ++ huffEnc(s)
+//@ -- string literal: H bit + length integer + octets; Huffman only when strictly shorter
+//@ pure func senc(s string) seq[byte] = ite(huffLen(s) < len(s), vencF(7, 128, huffLen(s)) ++ huffEnc(s), venc(7, len(s)) ++ s)
+//@ -- what the decoder reads back from a string literal
+//@ pure func slen(q seq[byte]) int = vlen(7, q) + vint(7, q)
+//@ pure func sval(q seq[byte]) string = ite(q[0] >= 128, huffDec(q[vlen(7, q):vlen(7, q) + vint(7, q)]), q[vlen(7, q):vlen(7, q) + vint(7, q)])
+//@ lemma [C18:continuation-groups-extent] rtGroupsLen(r int, rest seq[byte]) induction r from 0 = 0 <= r ==> glen(vgroups(r) ++ rest) == len(vgroups(r))
+//@ lemma [C18:plain-length-prefix-round-trip-one-octet] rtLen0a(l int, rest seq[byte]) = 0 <= l && l < 127 ==> vint(7, seq[byte]{l} ++ rest) == l && vlen(7, seq[byte]{l} ++ rest) == 1
+//@ lemma [C18:plain-length-prefix-round-trip-long] rtLen0b(l int, rest seq[byte]) using rtGroups, rtGroupsLen = 127 <= l ==> vint(7, seq[byte]{127} ++ vgroups(l - 127) ++ rest) == l && vlen(7, seq[byte]{127} ++ vgroups(l - 127) ++ rest) == 1 + len(vgroups(l - 127))
+//@ lemma [C18:huffman-length-prefix-round-trip] rtLen128(l int, rest seq[byte]) using rtGroups, rtGroupsLen = 0 <= l ==> vint(7, vencF(7, 128, l) ++ rest) == l && vlen(7, vencF(7, 128, l) ++ rest) == len(vencF(7, 128, l)) && (vencF(7, 128, l) ++ rest)[0] >= 128
+//@ -- the three shapes senc(s) takes, each decoded back by the reader's definition (sval / slen)
+//@ lemma [C18:string-literal-round-trip-huffman] rtStringHuff(s string, rest seq[byte]) using rtLen128(huffLen(s), huffEnc(s) ++ rest) = huffLen(s) < len(s) ==> sval(vencF(7, 128, huffLen(s)) ++ huffEnc(s) ++ rest) == s && slen(vencF(7, 128, huffLen(s)) ++ huffEnc(s) ++ rest) == len(vencF(7, 128, huffLen(s))) + huffLen(s)
+//@ lemma [C18:string-literal-round-trip-short] rtStringShort(s string, rest seq[byte]) using rtLen0a(len(s), s ++ rest) = len(s) < 127 ==> sval(seq[byte]{len(s)} ++ s ++ rest) == s && slen(seq[byte]{len(s)} ++ s ++ rest) == 1 + len(s)
+//@ lemma [C18:string-literal-round-trip-long] rtStringLong(s string, rest seq[byte]) using rtLen0b(len(s), s ++ rest) = len(s) >= 127 ==> sval(seq[byte]{127} ++ vgroups(len(s) - 127) ++ s ++ rest) == s && slen(seq[byte]{127} ++ vgroups(len(s) - 127) ++ s ++ rest) == 1 + len(vgroups(len(s) - 127)) + len(s)
 //@ func appendHpackString :: dst, s -> out
 //@   props C18,C10
-//@   trusted
 //@   assigns nothing
 //@   ensures len(out) > len(dst) && out[:len(dst)] == dst
+//@   ensures [C18:string-literal-wire-image] out == dst ++ senc(s)
 
 //@ func appendNewName :: dst, f, indexing -> out
 //@   props C18,C10
 //@   assigns nothing
 //@   ensures [C18:literal-with-new-name-starts-with-type-byte] len(out) > len(dst) + 2 && out[:len(dst)] == dst && out[len(dst)] == ite(f.Sensitive, 16, ite(indexing, 64, 0))
+//@   ensures [C18:literal-with-new-name-wire-image] out == dst ++ seq[byte]{ite(f.Sensitive, 16, ite(indexing, 64, 0))} ++ senc(f.Name) ++ senc(f.Value)
 
 //@ func appendIndexedName :: dst, f, i, indexing -> out
 //@   props C18,C10
+//@   requires [C18:sensitive-fields-are-never-sent-with-incremental-indexing] !(indexing && f.Sensitive)
 //@   assigns nothing
+//@   ensures [C18:literal-with-indexed-name-wire-image] out == dst ++ vencF(ite(indexing, 6, 4), ite(f.Sensitive, 16, ite(indexing, 64, 0)), i) ++ senc(f.Value)
 //@   ensures [C18:literal-with-indexed-name-appended] len(out) > len(dst) + 1 && out[:len(dst)] == dst
 
 //@ func (*Encoder).WriteField :: e, f -> err
@@ -368,4 +411,5 @@ package hpack
 //@   ensures [C18:sensitive-fields-never-indexed] f.Sensitive ==> e.dynTab.table.ents == old(e.dynTab.table.ents)
 //@   ensures [C18:field-too-large-for-table-not-indexed] entSize(f) > e.dynTab.maxSize ==> e.dynTab.table.ents == old(e.dynTab.table.ents)
 //@   ensures [C18:at-most-one-entry-added-as-newest] e.dynTab.table.ents == old(e.dynTab.table.ents) || (len(e.dynTab.table.ents) >= 1 && e.dynTab.table.ents[len(e.dynTab.table.ents)-1] == f && !f.Sensitive)
+//@   ensures [C18:field-wire-image-owed-size-updates-first-then-one-representation] e.buf == ite(old(e.tableSizeUpdate), ite(old(e.minSize) < old(e.dynTab.maxSize), vencF(5, 32, old(e.minSize)), seq[byte]{}) ++ vencF(5, 32, old(e.dynTab.maxSize)), seq[byte]{}) ++ ite(nameValueMatch, vencF(7, 128, idx), ite(idx == 0, seq[byte]{ite(f.Sensitive, 16, ite(indexing, 64, 0))} ++ senc(f.Name) ++ senc(f.Value), vencF(ite(indexing, 6, 4), ite(f.Sensitive, 16, ite(indexing, 64, 0)), idx) ++ senc(f.Value)))
 //@   ensures [C18:one-write-per-field] err == nil ==> written(e.w) == old(written(e.w)) ++ e.buf && len(e.buf) > 0
